@@ -246,7 +246,11 @@ class Emitter:
             a('%s  else if(how_ == 1) { %s.resize((L_)src_.size()); for(std::size_t i_ = 0; i_ < src_.size(); i_++) %s[(L_)i_] = src_[i_]; }'
               % (ind, dv, dv))
             a('%s  else if(how_ == 2) %s.assign(src_.begin(), src_.end());' % (ind, dv))
-            a('%s  else { %s.clear(); for(auto x_ : src_) %s.push_back(x_); }' % (ind, dv, dv))
+            a('%s  else if(how_ == 3) { %s.clear(); for(auto x_ : src_) %s.push_back(x_); }' % (ind, dv, dv))
+            # C-string form: only for payloads without a NUL (otherwise the range form); the terminator must not be copied
+            a('%s  else if(how_ == 4) { bool z_ = false; std::string cs_; for(auto x_ : b_) { z_ = z_ || x_ == 0; cs_.push_back((char)x_); }'
+              ' if(z_) %s.assign_range(src_); else %s.assign_string(cs_.c_str()); }' % (ind, dv, dv))
+            a('%s  else { %s.clear(); %s.insert(%s.end(), src_.begin(), src_.end()); }' % (ind, dv, dv, dv))
             a('%s  k.point("%s");' % (ind, dlabel))
             if cursor and mode == "tag":
                 a('%s  ::sbepp::get_by_tag<%s::%s>(%s, %s);' % (ind, tagpath, d.name, view, cursor))
